@@ -3,6 +3,7 @@
 # Copyright (c) 2015-2020 ODC Contributors
 # SPDX-License-Identifier: Apache-2.0
 import warnings
+from threading import RLock
 from typing import (
     TYPE_CHECKING,
     Any,
@@ -54,7 +55,7 @@ def _make_crs_key(crs_spec: Union[int, str, Hashable, CRSLike]) -> Hashable:
     return crs_spec.to_wkt()
 
 
-@cachetools.cached(_crs_cache, key=_make_crs_key)
+@cachetools.cached(_crs_cache, key=_make_crs_key, lock=RLock())
 def _make_crs(
     crs_spec: Union[str, int, _CRS, CRSLike]
 ) -> Tuple[_CRS, str, Optional[int]]:
